@@ -211,9 +211,166 @@ fn run_spy(cap: Option<usize>, queue: Option<usize>, ops: &[Op]) -> String {
     format!("R:{}|M:{}", results.join(","), msgs.join(";"))
 }
 
+/// QF: StatsdClient -> QueuingMetricSink -> (gate) -> BufferedSpyMetricSink.  The gate logs, in real order, every call
+/// that reaches the buffered sink and can park the worker before it hands a metric over (a deterministic backlog).
+///   ops: E<hex> emit on the queuing sink | P arm the gate (the next metric parks) | G open the gate
+///        | F flush() on the queuing sink | C flush() through the client
+/// observation: R:<per op>|I:<calls that reached the buffered sink, in order: E<hex>=k<n>|e , F=k0|e>
+///              |M:<messages on the spy channel>|N:<per op: messages so far>|A:<per op: inner calls completed so far>
+fn run_qf(cap: Option<usize>, ops: &str) -> String {
+    use cadence::{QueuingMetricSink, StatsdClient};
+    use std::sync::{Arc, Condvar, Mutex};
+    struct GSt {
+        armed: bool,
+        parked: bool,
+        open: bool,
+        log: Vec<String>,
+    }
+    struct Gate {
+        inner: BufferedSpyMetricSink,
+        st: Arc<(Mutex<GSt>, Condvar)>,
+    }
+    impl std::panic::RefUnwindSafe for Gate {}
+    impl MetricSink for Gate {
+        fn emit(&self, m: &str) -> io::Result<usize> {
+            {
+                let (mx, cv) = &*self.st;
+                let mut g = mx.lock().unwrap();
+                if g.armed {
+                    g.armed = false;
+                    g.parked = true;
+                    cv.notify_all();
+                    while !g.open {
+                        g = cv.wait(g).unwrap();
+                    }
+                    g.open = false;
+                    g.parked = false;
+                    cv.notify_all();
+                }
+            }
+            let r = self.inner.emit(m);
+            let s = match &r {
+                Ok(n) => format!("E{}=k{}", hex(m.as_bytes()), n),
+                Err(_) => format!("E{}=e", hex(m.as_bytes())),
+            };
+            self.st.0.lock().unwrap().log.push(s);
+            r
+        }
+        fn flush(&self) -> io::Result<()> {
+            let r = self.inner.flush();
+            self.st.0.lock().unwrap().log.push(if r.is_ok() { "F=k0".to_string() } else { "F=e".to_string() });
+            r
+        }
+    }
+    let (rx, spy) = BufferedSpyMetricSink::with_capacity(None, cap);
+    let st = Arc::new((Mutex::new(GSt { armed: false, parked: false, open: false, log: vec![] }), Condvar::new()));
+    let q = QueuingMetricSink::from(Gate { inner: spy, st: st.clone() });
+    let client = StatsdClient::from_sink("", q.clone());
+    let mut got: Vec<Vec<u8>> = vec![];
+    let (mut res, mut ns, mut accs) = (vec![], vec![], vec![]);
+    let idle = |q: &QueuingMetricSink, st: &Arc<(Mutex<GSt>, Condvar)>| {
+        // wait until the worker has handed over everything it can: queue drained (or the worker parked in the gate)
+        let t0 = std::time::Instant::now();
+        let mut calm = 0;
+        while t0.elapsed() < std::time::Duration::from_secs(2) {
+            let parked = st.0.lock().unwrap().parked;
+            if (q.drained() >= q.submitted() || parked) && crate::queue::others_asleep() {
+                calm += 1;
+                if calm >= 2 {
+                    break;
+                }
+            } else {
+                calm = 0;
+            }
+            std::thread::sleep(std::time::Duration::from_micros(150));
+        }
+    };
+    for op in ops.split(',') {
+        let r = match &op[..1] {
+            "E" => {
+                let m = String::from_utf8(unhex(&op[1..])).expect("utf8");
+                let r = q.emit(&m);
+                idle(&q, &st);
+                match r {
+                    Ok(n) => format!("k{}", n),
+                    Err(_) => "e".to_string(),
+                }
+            }
+            "P" => {
+                st.0.lock().unwrap().armed = true;
+                "-".to_string()
+            }
+            "G" => {
+                {
+                    let (mx, cv) = &*st;
+                    let mut g = mx.lock().unwrap();
+                    g.armed = false;
+                    if g.parked {
+                        g.open = true;
+                        cv.notify_all();
+                        while g.parked {
+                            g = cv.wait(g).unwrap();
+                        }
+                    }
+                }
+                idle(&q, &st);
+                "-".to_string()
+            }
+            "F" => match q.flush() {
+                Ok(()) => "k0".to_string(),
+                Err(_) => "e".to_string(),
+            },
+            "C" => match client.flush() {
+                Ok(()) => "k0".to_string(),
+                Err(_) => "e".to_string(),
+            },
+            _ => panic!("bad QF op {}", op),
+        };
+        res.push(r);
+        got.extend(rx.try_iter());
+        ns.push(got.len().to_string());
+        accs.push(st.0.lock().unwrap().log.len().to_string());
+    }
+    // let everything through, then drop the whole stack (the worker drops the buffered sink, which flushes)
+    {
+        let (mx, cv) = &*st;
+        let mut g = mx.lock().unwrap();
+        g.armed = false;
+        if g.parked {
+            g.open = true;
+            cv.notify_all();
+        }
+    }
+    idle(&q, &st);
+    drop(client);
+    drop(q);
+    let t0 = std::time::Instant::now();
+    while t0.elapsed() < std::time::Duration::from_millis(500) {
+        got.extend(rx.try_iter());
+        if crate::queue::others_asleep() && Arc::strong_count(&st) == 1 {
+            break;
+        }
+        std::thread::sleep(std::time::Duration::from_micros(200));
+    }
+    got.extend(rx.try_iter());
+    let log = st.0.lock().unwrap().log.join(",");
+    format!(
+        "R:{}|I:{}|M:{}|N:{}|A:{}",
+        res.join(","),
+        log,
+        got.iter().map(|m| hex(m)).collect::<Vec<_>>().join(";"),
+        ns.join(","),
+        accs.join(",")
+    )
+}
+
 pub fn run_case(line: &str) -> String {
     let t: Vec<&str> = line.split_whitespace().collect();
     match t[0] {
+        "QF" => {
+            let cap = if t[1] == "d" { None } else { Some(t[1].parse().unwrap()) };
+            run_qf(cap, t[2])
+        }
         "W" => {
             let cap: usize = t[1].parse().unwrap();
             let ending = unhex(t[2]);
